@@ -279,6 +279,52 @@ def h_malformed(sx, cfg):
             check_all(sx, [(f"{name}-{ftag}-unchanged-{n_}", cnd) for n_, cnd in _state_checks(sx, "", kindobj, obj, st, dims)])
 
 
+def h_float_degenerate(sx, cfg):
+    """binary64 scalings whose image is (or is nearly) degenerate in floating point although the factor is non-zero (concrete;
+    the rounding happens inside numpy): both forms take the same decision - either both refuse and the object is unchanged,
+    or both succeed, the in-place object equals the copy and still has pmin < pmax in every direction"""
+    df = lib.load()
+    with sx.native():
+        kindobj = cfg["obj"]
+        for tag, p1, p2, n, factor, ref in (
+            ("tiny-far-ref", (0.0, 0.0), (1.0, 2.0), (2, 4), 1e-20, (1e6, -1e6)),
+            ("tiny-one-axis-far-ref", (0.0, 0.0), (1.0, 2.0), (2, 4), (1.0, 1e-20), (3.0, 1e6)),
+            ("tiny-negative-far-ref", (-1.0, 5.0), (1.0, 7.0), (2, 2), -1e-18, (1e5, 1e5)),
+            ("underflow", (0.0, 0.0), (1e-300, 1e-300), (1, 1), 1e-30, None),
+            ("tiny-default-ref", (1e6, 1e6), (1e6 + 1, 1e6 + 2), (1, 2), 1e-20, None),
+            ("small-but-fine", (0.0, 0.0), (1.0, 2.0), (2, 4), 1e-3, (10.0, -10.0)),
+            ("1d-tiny-far-ref", 0.0, 1.0, 4, 1e-20, 1e6),
+        ):
+            def make():
+                r = df.Region(p1=p1, p2=p2)
+                return r if kindobj == "region" else df.Mesh(region=r, n=n)
+            kw = {} if ref is None else dict(reference_point=ref)
+            a, b = make(), make()
+            reg = (lambda o: o) if kindobj == "region" else (lambda o: o.region)
+            before = (np.array(reg(b).pmin, dtype=float).copy(), np.array(reg(b).pmax, dtype=float).copy())
+            try:
+                cp = a.scale(factor, inplace=False, **kw)
+                cp_exc = None
+            except (ValueError, TypeError) as ex:
+                cp, cp_exc = None, type(ex).__name__
+            try:
+                ret = b.scale(factor, inplace=True, **kw)
+                ip_exc = None
+            except (ValueError, TypeError) as ex:
+                ret, ip_exc = None, type(ex).__name__
+            sx.check(f"{tag}-same-decision", (cp_exc is None) == (ip_exc is None), copy=str(cp_exc), inplace=str(ip_exc),
+                     pmin=str(reg(b).pmin), pmax=str(reg(b).pmax))
+            if ip_exc is None:
+                sx.check(f"{tag}-inplace-ordered", bool(np.all(np.asarray(reg(b).pmin) < np.asarray(reg(b).pmax))),
+                         pmin=str(reg(b).pmin), pmax=str(reg(b).pmax))
+                sx.check(f"{tag}-inplace-returns-self", ret is b)
+                if cp_exc is None:
+                    sx.check(f"{tag}-inplace-equals-copy", bool(np.array_equal(reg(b).pmin, reg(cp).pmin)) and bool(np.array_equal(reg(b).pmax, reg(cp).pmax)))
+            else:
+                sx.check(f"{tag}-refused-unchanged", bool(np.array_equal(reg(b).pmin, before[0])) and bool(np.array_equal(reg(b).pmax, before[1])))
+            sx.check(f"{tag}-copy-leaves-original", bool(np.array_equal(reg(a).pmin, before[0])) and bool(np.array_equal(reg(a).pmax, before[1])))
+
+
 CONCRETE_FACTORS = {1: [2, -1.5, 0.25], 2: [2, -1.5, (-2, 0.5), (0.75, 3)], 3: [-2, 0.5, (3, -1, 0.5), (-0.25, -4, 2)]}
 
 
@@ -364,4 +410,6 @@ def tasks(tier):
                                                         steps=[dict(kind="rotate", a=a, b=b, k=1, inplace=True), dict(kind="rotate", a=a, b=b, k=-1, inplace=False)])))
     for obj in ("region", "mesh", "field"):
         t.append(dict(harness="h_malformed", cfg=dict(obj=obj)))
+    for obj in ("region", "mesh"):
+        t.append(dict(harness="h_float_degenerate", cfg=dict(obj=obj)))
     return t
